@@ -297,9 +297,11 @@ def post_slice_1d(dim_shape, lengths, index, result):
                     LOG.obs["_slice_1d:piece_bounds_beyond_block"] += 1
         else:
             sel = [int(piece)]
-        if not sel and exp:
+        if not sel and exp and lengths[blk] > 0:
             # "If the slice won't return any elements in the block, that block will not be in the
-            # output": an empty piece becomes a zero-width block that consumers (reshape) cannot plan
+            # output": an empty piece becomes a zero-width block that consumers (reshape) cannot plan.
+            # (A block that was zero-width before the slice may be listed - the full-slice fast path keeps
+            # the layout as it is; no new empty block is created.)
             LOG.bad("_slice_1d", "_slice_1d:empty_piece", f"_slice_1d({n},{lengths},{index}) -> {result}: block {blk} contributes nothing but is listed", [n, lengths, enc(index)])
             return True
         got.extend(offs[blk] + i for i in sel)
